@@ -58,7 +58,9 @@ def cases(draw):
                         # the send queue when the connection ends
                         'block_sender': draw(st.sampled_from([False, False, True])),
                         # the server is in the middle of sending a fragmented request to the client when the connection ends
-                        'server_partial': draw(st.sampled_from([False, False, True])),
+                        # (True: a request of its own; 'element': an element of a channel the client opened, whose outbound
+                        # half is still open)
+                        'server_partial': draw(st.sampled_from([False, False, True, 'element'])),
                         'ticks_after': draw(st.integers(1, 5))})
     lease = draw(st.integers(0, 3)) == 0
     if lease:
@@ -71,6 +73,8 @@ def cases(draw):
     for e in endings:
         if e['kind'] == 'ka_timeout' or frag is None or lease:
             e['server_partial'] = False
+        if e['server_partial'] == 'element' and 'ch' not in e['pending']:
+            e['pending'] = e['pending'] + ['ch']
     return {'mode': mode, 'endings': endings, 'P_ms': P, 'L_ms': L, 'msg': draw(st.booleans()),
             'frag': frag, 'lease': lease}
 
@@ -124,6 +128,13 @@ def build(case):
                 inter.append({'k': 'rr', 'side': 's', 'req': [100, 2], 'resp': {'mode': 'now', 'p': [9, 3]}})
                 cur['probes'].append(len(inter) - 1)
                 ops.append(['start'])
+        if plan and any(e.get('server_partial') == 'element' for e in case['endings']):
+            # ... and the client asks a few more things, with answers that need reassembly, on the ids its pending
+            # interactions had on the previous connection
+            for _ in range(4):
+                inter.append({'k': 'rr', 'side': 'c', 'req': [7, 1], 'resp': {'mode': 'now', 'p': [100, 20]}})
+                cur['probes'].append(len(inter) - 1)
+                ops.append(['start'])
         ops.append(['settle'])
 
     add_probes()
@@ -137,7 +148,12 @@ def build(case):
             cur['pending'].append(len(inter) - 1)
             ops.append(['start'])
         ops.append(['tick', e['ticks_before']])
-        if e.get('server_partial'):
+        if e.get('server_partial') == 'element':
+            uid = next(u for u in cur['pending'] if inter[u]['k'] == 'ch')
+            inter[uid]['src'] = {'kind': 'manual', 'els': [[300, 40]] * 3, 'end': 'sep'}
+            ops += [['settle'], ['regime', 'manual'], ['emit', uid, 'resp', 1], ['tick', 2],
+                    ['deliver', 's', 2 if case['msg'] else 150], ['tick', 2]]
+        elif e.get('server_partial'):
             inter.append({'k': 'rr', 'side': 's', 'req': [300, 0], 'resp': {'mode': 'now', 'p': [4, 0]}})
             ops += [['settle'], ['regime', 'manual'], ['start'], ['tick', 2], ['deliver', 's', 2 if case['msg'] else 150], ['tick', 2]]
         ops.append(['mark', 'ending'])
